@@ -6,6 +6,7 @@ import (
 	"bytes"
 
 	"github.com/ohler55/slip"
+	"github.com/ohler55/slip/pkg/cl"
 )
 
 func init() {
@@ -68,6 +69,10 @@ func (f *WithInputFromOctets) Call(s *slip.Scope, args slip.List, depth int) (re
 	s2.Let(sym, slip.NewInputStream(bytes.NewReader(data)))
 	for i := range forms {
 		result = slip.EvalArg(s2, forms, i, d2)
+		switch result.(type) {
+		case *slip.ReturnResult, *cl.GoTo:
+			return // pass a return-from, return or go on to its target
+		}
 	}
 	return
 }
